@@ -220,6 +220,10 @@ def long_inputs(check, tier):
 
 
 def run(check, tier, seed):
+    from pyvc.verify import verify
+    import contracts.valuemodel as VM
+    for c in VM.ALL:            # this property's contracts are stated over the executor's value model of Chunk / FmtStr: the real constructors and
+        verify(c, tier, check, prefix="C06")      # accessors must behave as that model says (same obligations as in C13, decided here too)
     long_inputs(check, tier)
     plain_lemma_selftest(check)
     for c in CONTRACTS:
